@@ -60,3 +60,34 @@ Theorem C07_nodal_rows_unique :
   forall nodes skip steps mp, NoDup nodes -> NoDup steps -> NoDup (nodal_map nodes skip steps mp).
 Proof. exact nodal_map_nodup. Qed.
 Print Assumptions C07_nodal_rows_unique.
+
+(* ---------- the stand-alone problems of the model builders are well formed (corollaries of the C02 instance theorems, Reference.v):
+   bounds and rows have one entry per variable / refer to existing variables, every mapping row names the asset and an existing variable ---------- *)
+From Coq Require Import QArith.
+From EAO Require Import Grid Assets Reference.
+Open Scope Q_scope.
+Theorem C07_transport_builder_wf :
+  forall g rg p a, transport g rg p = Some a -> rg_minor rg = None ->
+  List.length (rg_dt rg) = rg_T rg -> List.length (rg_disc rg) = rg_T rg ->
+  List.length (transport_costs g rg p) = rg_T rg -> String.eqb (tp_n1 p) (tp_n2 p) = false ->
+  wf_lp (ap_lp a) /\ Forall (fun r => m_asset r = tp_name p /\ (m_var r < nvars (ap_lp a))%nat) (ap_map a).
+Proof. exact transport_builder_wf. Qed.
+Print Assumptions C07_transport_builder_wf.
+
+Theorem C07_storage_builder_wf :
+  forall g rg p a, storage g rg p = Some a -> rg_minor rg = None -> sp_no_simult p = false -> sp_max_dur p = None ->
+  rg_T rg <> 0%nat -> List.length (rg_dt rg) = rg_T rg -> List.length (rg_disc rg) = rg_T rg ->
+  match sp_price p with Some v => List.length v = g_T g | None => True end ->
+  wf_lp (ap_lp a) /\ Forall (fun r => m_asset r = sp_name p /\ (m_var r < nvars (ap_lp a))%nat) (ap_map a).
+Proof. exact storage_builder_wf. Qed.
+Print Assumptions C07_storage_builder_wf.
+
+Theorem C07_contract_builder_wf :
+  forall g rg p a maxc minc ec, simple_contract g rg p = Some a -> rg_minor rg = None ->
+  mkvec rg (cp_max p) None true = Some maxc -> mkvec rg (cp_min p) None true = Some minc ->
+  mkvec rg (cp_extra p) (Some 0) false = Some ec ->
+  List.length maxc = rg_T rg -> List.length minc = rg_T rg -> List.length ec = rg_T rg -> List.length (rg_disc rg) = rg_T rg ->
+  (forall t, (t < rg_T rg)%nat -> 0 <= nth t ec 0) -> (forall t, (t < rg_T rg)%nat -> 0 <= nth t (rg_disc rg) 0) ->
+  wf_lp (ap_lp a) /\ Forall (fun r => m_asset r = cp_name p /\ (m_var r < nvars (ap_lp a))%nat) (ap_map a).
+Proof. exact contract_builder_wf. Qed.
+Print Assumptions C07_contract_builder_wf.
